@@ -67,6 +67,9 @@ pub fn get(id: &str) -> Option<PropDef> {
 pub fn finish(mut v: Vec<Program>) -> Vec<Program> {
     for (i, p) in v.iter_mut().enumerate() {
         p.idx = i;
+        if p.spec.syntax.iter().any(|s| s == "in-fn") {
+            p.source = crate::devs::into_fn_body(&p.source);
+        }
     }
     v
 }
